@@ -196,6 +196,9 @@ def edge_set_rule(ctx: Ctx, rid: str, only=None):
 
 
 def run_extra(ctx: Ctx):
+    # ---------------------------------------------------------------- R04.13 every duration parser tells minutes from months
+    from .common import duration_unit_rule
+    duration_unit_rule(ctx, "R04.13")
     # ---------------------------------------------------------------- R04.12 answers never come from state that outlives the question
     from .common import process_state_rule
     process_state_rule(ctx, "R04.12", [ctx.repo.func("Project.schedule"), ctx.repo.func("ProjectFileParser.parse")],
